@@ -91,7 +91,7 @@ func checkOne(src []byte, v px.Ver) (string, string, []byte) {
 }
 
 func options(v px.Ver) phpgen.Options {
-	o := progs.Options(v)
+	o := progs.StructuralOptions(v)
 	for name, set := range switches {
 		if harness.FindingOpen(name) {
 			set(&o)
